@@ -22,7 +22,7 @@ ASSUMPTIONS = ['BLOCKWISE rules excluded; skip_checks rules are included for the
 
 
 def plan(tier):
-  return {'n_cases': 400 if tier == 'quick' else 8000, 'shards': 16}
+  return {'n_cases': 400 if tier == 'quick' else 32000, 'shards': 16}
 
 
 def shipped_case(ctx):
